@@ -426,6 +426,26 @@ func (h *Hist) randomEvent() string {
 	if focus == "down" && r.chance(60) {
 		ev = r.pickI(10, 11, 12, 0, 1, 8, 13) // time passes between scale-down scans; a taint is lifted by hand now and then
 	}
+	if (focus == "up" || focus == "churn") && r.chance(12) && len(nodes) >= 3 {
+		// an operator marks several nodes for forced removal at once and drains them: one removal request of several nodes
+		k := r.rng(2, 4)
+		marked := map[string]bool{}
+		for i := 0; i < k; i++ {
+			n := pickNode()
+			if !n.hasTaint(forceKey) {
+				n.Taints = append(n.Taints, WTaint{Key: forceKey, Effect: "NoSchedule", Raw: "x"})
+			}
+			marked[n.Name] = true
+		}
+		var keep []*WPod
+		for _, p := range h.pods {
+			if !marked[p.NodeName] {
+				keep = append(keep, p)
+			}
+		}
+		h.pods = keep
+		return "force-taint-burst"
+	}
 	if focus == "churn" && r.chance(20) {
 		// the cloud group grows by an instance (somebody raised the desired size) whose node is already due for removal
 		g := h.aws.asgs[o.CloudProviderGroupName]
@@ -761,7 +781,7 @@ func (h *Hist) runHistory(scans int) (bool, string) {
 		}
 		if focus == "fleet" {
 			h.aws.ec2.fleetSplit = h.r.pickI(1, 1, 2)
-			h.aws.ec2.fleetMode = h.r.pick("ok", "ok", "ok", "ok", "some+err", "none+err", "none")
+			h.aws.ec2.fleetMode = h.r.pick("ok", "ok", "ok", "ok", "some+err", "none+err", "none", "short+err")
 			h.aws.ec2.notReady = map[int]bool{}
 			switch h.r.intn(6) {
 			case 0:
